@@ -17,8 +17,10 @@ type deadlineCtx struct {
 	timedOut        bool
 }
 
+//go:norace
 func (c *deadlineCtx) Deadline() (time.Time, bool) { return c.deadline, true }
 
+//go:norace
 func (c *deadlineCtx) Err() error {
 	err := c.Context.Err()
 	if err != nil && c.timedOut {
@@ -27,6 +29,7 @@ func (c *deadlineCtx) Err() error {
 	return err
 }
 
+//go:norace
 func WithDeadline(parent context.Context, d time.Time) (context.Context, context.CancelFunc) {
 	x := vrt.Cur()
 	if x == nil {
@@ -66,6 +69,8 @@ func WithDeadline(parent context.Context, d time.Time) (context.Context, context
 // WithCancel wraps context.WithCancel so that cancellation is a hooked operation: the
 // canceller's history flows into the shared cancel cell that every reader of a Done
 // channel absorbs.
+//
+//go:norace
 func WithCancel(parent context.Context) (context.Context, context.CancelFunc) {
 	ctx, cancel := context.WithCancel(parent)
 	return ctx, func() {
@@ -76,6 +81,7 @@ func WithCancel(parent context.Context) (context.Context, context.CancelFunc) {
 	}
 }
 
+//go:norace
 func WithTimeout(parent context.Context, d time.Duration) (context.Context, context.CancelFunc) {
 	return WithDeadline(parent, vtime.Now().Add(d))
 }
